@@ -132,6 +132,17 @@ fn main() {
             }
         }
     }
+    // C11: a Block1 whose offset lies more than 16 KiB past the buffered upload must be refused
+    for szx in 0..=7u8 { let size = 16usize << szx; for more in [true, false] { for extra in 1..=2usize {
+        let num = (16384 / size + extra) as u16;
+        let mut h = BlockHandler::new(BlockHandlerConfig::default());
+        let mut req = request(RequestType::Put, 7, Some((CoapOption::Block1, BlockValue { num, more, size_exponent: szx })), &[9; 8]);
+        match catch_unwind(AssertUnwindSafe(|| h.intercept_request(&mut req))) {
+            Err(_) => found("handler-panic", format!("PUT far block num={} szx={}", num, szx)),
+            Ok(Ok(_)) => found("far-block-accepted", format!("PUT Block1 num={} szx={} more={} on an empty upload buffer: offset {} > 16384, accepted (payload now {} bytes)", num, szx, more, num as usize * size, req.message.payload.len())),
+            Ok(Err(_)) => {}
+        }
+    } } }
     let _ = h;
     println!("NONE");
 }
